@@ -17,7 +17,7 @@ import (
 
 func init() {
 	Registry["C11"] = Set{
-		Explanation: "Decides structural clauses of the EDF round trip on the built-in codec: E1 registry agreement — for every wire tag the encoder registered for Go type T emits that tag (in the registry entry and inside the function) and the decoder registered under the tag produces T and checks the same tag; encodeX is paired with decodeX; E2 width agreement — per pair, the constant byte counts produced (Extend/AppendByte) equal the constant byte counts consumed (slice advances), every advance is covered by a length guard of the same size, atoms written equal atoms read; E3 length limits — no addition or multiplication is performed in a narrow unsigned type (uint8/16/32) on a decoded length (wrap makes accepted values undecodable), and the largest length each encoder accepts fits the wire field it is converted to; E4 no dynamic format string in the codec, protocol and handshake packages (decoded bytes must never be a format); E5 the discriminator constants agree across encoder guard, encoder cache test, decoder test and cache-id allocator for atoms (255), errors (32767, nil marker 65535) and registered names (4095); E6 cache direction — the handshake builds encode caches from the local Introduce and decode caches from the peer's, in both roles. Added while probing: E7 composite type descriptors: every composite tag the encoder emits has an arm in the decoder's type unfolding checking the same tag; E8 every fixed-width integer access of the codec is big-endian (no other byte order in net/edf).",
+		Explanation: "Decides structural clauses of the EDF round trip on the built-in codec: E1 registry agreement — for every wire tag the encoder registered for Go type T emits that tag (in the registry entry and inside the function) and the decoder registered under the tag produces T and checks the same tag; encodeX is paired with decodeX; E2 width agreement — per pair, the constant byte counts produced (Extend/AppendByte) equal the constant byte counts consumed (slice advances), every advance is covered by a length guard of the same size, atoms written equal atoms read; E3 length limits — no addition or multiplication is performed in a narrow unsigned type (uint8/16/32) on a decoded length (wrap makes accepted values undecodable), and the largest length each encoder accepts fits the wire field it is converted to; E4 no dynamic format string in the codec, protocol and handshake packages (decoded bytes must never be a format); E5 the discriminator constants agree across encoder guard, encoder cache test, decoder test and cache-id allocator for atoms (255), errors (32767, nil marker 65535) and registered names (4095); E6 cache direction — the handshake builds encode caches from the local Introduce and decode caches from the peer's, in both roles. Added while probing: E7 composite type descriptors: every composite tag the encoder emits has an arm in the decoder's type unfolding checking the same tag; E8 every fixed-width integer access of the codec is big-endian (no other byte order in net/edf). E9 a collection present on the wire is decoded into a made collection on every successful path (nil and empty stay apart); E2r the fixed-width reads a decoder takes from one packet value tile it from offset 0 without gap or overlap.",
 		NotDecided: []string{
 			"equality of decode(encode(v)) over the value space",
 			"behaviour of reflection for composite and registered types (header symmetry of slices/maps/structs is only checked for constant widths)",
